@@ -38,9 +38,8 @@ structure Case where
   changes : List (String × Val)
   /-- the validators whose verdict depends on the instance's state -/
   veto : List Veto
-  /-- layout facts of the instance's class, read from the real class: instances have a `__dict__`; copying
-      goes through an attrs-generated `__getstate__`, which reads every field -/
-  instHasDict : Bool
+  /-- layout fact of the instance's class, read from the real class: copying goes through an attrs-generated
+      `__getstate__`, which reads every field -/
   copyNeedsAll : Bool
   deriving Repr, FromJson, ToJson, Inhabited
 
@@ -148,22 +147,13 @@ def withFault (k : Init.Case) (f : EventId) : Init.Case := { k with run := { k.r
 
 /-! ### assoc's name check -/
 
-/-- names that are no fields but resolve on EVERY fields tuple (`tuple` / `object` attributes): `assoc` looks the
-    name up with `getattr(fields(cls), name, NOTHING)` and so takes them for fields (known finding K12a).  Only
-    the names the harness uses are listed. -/
-def resolvesOnTuple : List String :=
-  ["count", "index", "__len__", "__doc__", "__module__", "__getstate__", "__init__"]
-
-/-- `assoc`'s loop over `**changes`, in order: a field is written; a name resolving on the fields tuple is written
-    too (`object.__setattr__`: a stray instance attribute, AttributeError without `__dict__`); anything else
-    raises AttrsAttributeNotFoundError -/
-def assocLoop (isField : String → Bool) (hasDict : Bool) : List (String × Val) → Option Exc
+/-- `assoc`'s loop over `**changes`, in order: a name is a field iff `getattr(fields(cls), name, NOTHING)` is an
+    `Attribute` — whatever else the name resolves to on the fields tuple (`count`, `index`, `__len__`, `__doc__` …:
+    attributes of every tuple), on the instance or on its class (methods, properties, constants, instance
+    attributes, dunders), it raises AttrsAttributeNotFoundError -/
+def assocLoop (isField : String → Bool) : List (String × Val) → Option Exc
   | [] => none
-  | kv :: rest =>
-    if isField kv.1 then assocLoop isField hasDict rest
-    else if resolvesOnTuple.contains kv.1 then
-      (if hasDict then assocLoop isField hasDict rest else some .attributeError)
-    else some .notFound
+  | kv :: rest => if isField kv.1 then assocLoop isField rest else some .notFound
 
 def failed (c : Case) (e : Exc) (trace : List Event) : Obs :=
   { exc := some e, values := [], orig := c.cur, fresh := false, invariants := false, ident := [],
@@ -193,7 +183,7 @@ def model (c : Case) : Obs :=
             trace := o.trace, likeDirect := true }
   | .assoc =>
     -- a shallow copy and raw writes: no callback of the class runs, whatever the values are
-    match assocLoop (fun n => c.cur.any (·.1 == n)) c.instHasDict c.changes with
+    match assocLoop (fun n => c.cur.any (·.1 == n)) c.changes with
     | none =>
       { exc := none, values := assocValues c.cur c.changes, orig := c.cur, fresh := true,
         invariants := true,
